@@ -616,16 +616,19 @@ func (g *Gen) schema0() *Node {
 		}
 		return root
 	}
-	if g.P.PTypedRoot > 0 && g.R.Fork(0x7007).P(g.P.PTypedRoot) {
+	if g.P.PTypedRoot > 0 && g.P.PCustom+g.P.PPre > 0 && g.R.Fork(0x7007).P(g.P.PTypedRoot) {
 		// CustomFunc / Preprocess as the execution root: their own typed Parse / Validate entry points
-		if g.R.P(45) {
+		// (a profile that draws no Preprocess / no CustomFunc nodes gets none at the root either)
+		if g.P.PCustom > 0 && (g.P.PPre == 0 || g.R.P(45)) {
 			t := TestSpec{ID: g.id(), User: g.userPred(KCustom)}
 			g.opts(&t)
 			return &Node{Kind: KCustom, Tests: []TestSpec{t}}
 		}
-		inner := g.prim(KString)
-		inner.Coercer = ""
-		return &Node{Kind: KPre, Elem: inner, PreOp: Pick(g.R, []string{"upper", "upper", "trim", "err", "issue", "wrap"}), PreID: g.id()}
+		if g.P.PPre > 0 {
+			inner := g.prim(KString)
+			inner.Coercer = ""
+			return &Node{Kind: KPre, Elem: inner, PreOp: Pick(g.R, []string{"upper", "upper", "trim", "err", "issue", "wrap"}), PreID: g.id()}
+		}
 	}
 	if g.P.PTopPtrRecord > 0 && g.R.P(g.P.PTopPtrRecord) {
 		g.forceExported = true
